@@ -268,7 +268,21 @@ def to_lean(d):
         rows.append(f"    {k} := fun l1 r1 l2 r2 => ({f[k][0]}, {f[k][1]}),")
     for k in ("neg", "abs"):
         rows.append(f"    {k} := fun l r => ({f[k][0]}, {f[k][1]}),")
-    pairs = lambda xs: "[" + ", ".join(f'("{a}", "{b}")' for a, b in xs) + "]"
+    def binrow(name, key):
+        core = name.strip("_")
+        refl = core.startswith("r") and core[1:] in ("add", "sub", "mul", "truediv")
+        if refl:
+            core = core[1:]
+        if core not in ("add", "sub", "mul", "truediv"):
+            raise TemplateMismatch(f"support formula for an operator outside the model: {name}")
+        return f"(.{core}, {'true' if refl else 'false'}, .{key})"
+    def unrow(name, key):
+        core = name.strip("_")
+        if core not in ("neg", "abs", "pos"):
+            raise TemplateMismatch(f"support formula for an operator outside the model: {name}")
+        return f"(.{core}, .{key})"
+    bins = "[" + ", ".join(binrow(a, b) for a, b in d["binOps"]) + "]"
+    uns = "[" + ", ".join(unrow(a, b) for a, b in d["unOps"]) + "]"
     return f"""import ScenicModel.Model.Support
 namespace Scenic.Gen
 open Scenic.Support
@@ -277,8 +291,8 @@ open Scenic.Support
 def supportFormulas : Formulas :=
   {{
 {chr(10).join(rows)}
-    binOps := {pairs(d["binOps"])},
-    unOps := {pairs(d["unOps"])} }}
+    binOps := {bins},
+    unOps := {uns} }}
 
 end Scenic.Gen
 """
